@@ -294,6 +294,28 @@ class World:
             self.fail("__inconclusive__", "solver unknown in holds()")
         return r == "unsat"
 
+    def holds_claim(self, cond):
+        """soft version of require(): True iff the symbolic claim holds for all values under the path condition and
+        assumptions (decided by z3); records nothing.  Float mode: plain truth value."""
+        if isinstance(cond, SBool):
+            cond = cond.t
+        if not isinstance(cond, z3.BoolRef):
+            return bool(cond)
+        t0 = time.time()
+        goal = z3.Not(cond)
+        if z3.is_false(z3.simplify(goal)):
+            self.solver_calls += 1
+            self.solver_s += time.time() - t0
+            return True
+        base = list(self.ctx.assumptions) + list(self.ctx.pc) + list(self.extra_axioms)
+        r, _ = _solve(base + [goal])
+        self.solver_calls += 1
+        self.solver_s += time.time() - t0
+        if r == "unknown":
+            self.n_inconclusive += 1
+            self.fail("__inconclusive__", "solver unknown in holds_claim()")
+        return r == "unsat"
+
     def _decide(self, label, negs):
         """negs: list of (id, negated-claim term, detail).  Claim holds iff pc & assumptions & Or(negs) unsat."""
         self.n_oblig += 1
